@@ -27,12 +27,12 @@ var vOps1 = []string{
 
 var vOps2 = []string{
 	"x+y", "x-y", "x*y", "x/y", "x%y", "x**y", "x==y", "x!=y", "x<y", "x<=y", "x>y", "x>=y", "x&y", "x|y",
-	"x && y", "x || y", "x ?? y", "x[y]", "x[y] = 1; x", "x[y:]", "x[:y]", "[x..y]", "(x)d(y)", "x.kh(y)", "x.kl(y)", "x.randSize(y)",
+	"x && y", "x || y", "x ?? y", "x[y]", "x[y] = 1; x", "x[y :]", "x[: y]", "[x..y]", "(x)d(y)", "x.kh(y)", "x.kl(y)", "x.randSize(y)",
 	"(x)a(y)", "(x)c(y)", "store(x, y)", "x(y)", "x.push(y); x", "2d(x)k(y)", "(x)d6min(y)",
 }
 
 var vOps3 = []string{
-	"x[y:z]", "x[y] = z; x", "x[y:z] = [1]; x", "x ? y : z", "(x)a(y)m(z)", "(x)c(y)m(z)", "(x)d(y)k(z)", "(x)a(y)k(z)", "(x)a(y)q(z)",
+	"x[y : z]", "x[y] = z; x", "x[y : z] = [1]; x", "x ? y : z", "(x)a(y)m(z)", "(x)c(y)m(z)", "(x)d(y)k(z)", "(x)a(y)k(z)", "(x)a(y)q(z)",
 	"(x)d(y)min(z)", "(x)d(y)max(z)",
 }
 
@@ -75,7 +75,7 @@ func VH_C01_ops2() {
 	vRunTemplate(vOps2[t], 2, vParam("depth", 0))
 }
 
-//vh:prop=C01 tiers=thorough sigkeys=template,x_kind,y_kind,z_kind unwind=3 unwind_ok=1 summaries=Roll:roll-contract maxsteps=8000000 budget_s=1500 P.depth=0 bounds="three-operand templates, operands over scalar kinds"
+//vh:prop=C01 tiers=quick,thorough sigkeys=template,x_kind,y_kind,z_kind unwind=3 unwind_ok=1 summaries=Roll:roll-contract maxsteps=8000000 budget_s=1500 P.depth=0 bounds="three-operand templates, operands over scalar kinds"
 func VH_C01_ops3() {
 	t := vParam("template", -1)
 	if t < 0 {
